@@ -76,6 +76,13 @@ func (w *World) AddHost(addr string, script [][]byte) *Host {
 	return h
 }
 
+// Down takes the host off the network: further connection attempts are refused.
+func (h *Host) Down() {
+	h.W.S.Unlisten(h.Addr)
+	delete(h.W.Host, h.Addr)
+	h.W.S.Count("fault.host.down")
+}
+
 func (hc *HostConn) ScriptDone() bool { return hc.next >= len(hc.H.Script) }
 
 // Sent is the byte stream the host has produced so far on this connection.
